@@ -348,6 +348,14 @@ def run(ctx, rng, k, cancel_prob=0.0, max_polls=40, local_prob=0.0, entry="direc
                                   st["cancel_at"] is not None, want, EXIT[want], ret)))
     elif entry != "direct" and str(ret).startswith("LAUNCH"):
         mon["C05"].append(("exit-code-truthful", "`maestro run` did not launch the conductor: %s" % ret))
+    if ret in EXIT and st["cancel_at"] is None:
+        # "has by then run every step whose dependencies all succeeded"
+        idle = [nm for nm in names if states[nm] == "INITIALIZED"
+                and all(states.get(p_) == "FINISHED" for p_ in env["parents"].get(nm, []))]
+        if idle:
+            mon["C05"].append(("ran-everything-runnable", "the conductor returned %s although %s never ran and all "
+                               "of its dependencies (%s) finished successfully"
+                               % (ret, idle[:3], [env["parents"].get(nm, []) for nm in idle[:3]])))
     if ret == "NONTERMINATION":
         mon["C05"].append(("terminates", "monitor_study did not return within %d polls of a fair tail" % max_polls))
     return {"mon": mon, "polls": st["polls"], "ret": ret, "spec": spec, "nontrivial": st["nontrivial"],
